@@ -109,7 +109,7 @@ def tlc(module, cfg, tag, workers=None, env=None, simulate=None, timeout=3000, h
     import uuid
     meta = os.path.join(OUT, '_tlc', '%s-%d-%s' % (tag, os.getpid(), uuid.uuid4().hex[:12]))
     os.makedirs(meta, exist_ok=True)
-    cmd = ['timeout', str(timeout), 'java', '-XX:+UseParallelGC', '-Xss512m', '-Xmx' + heap,
+    cmd = ['timeout', str(timeout), 'java', '-XX:+UseParallelGC', '-Xss512m', '-Xmx' + heap, '-Djava.io.tmpdir=' + meta,   # (TLC's own temporary directories go with the metadir)
            '-cp', '/opt/veriftools/tla/tla2tools.jar:/opt/veriftools/tla/CommunityModules-deps.jar',
            'tlc2.TLC', '-workers', str(workers), '-metadir', meta, '-noGenerateSpecTE',
            '-config', cfg]
